@@ -128,6 +128,18 @@ Proof.
   - intros H. exact (gens_valid_sound n c G W L H).
 Qed.
 
+(* time_elapse_assign: with TE = { p + t q | p in P, q in Q, t >= 0 }, the reference result (generators of P
+   plus the generators of Q turned into directions) contains TE and is contained in every polyhedron containing TE *)
+Theorem C02_time_elapse_contains : forall n G1 G2 x, time_elapse_set n G1 G2 x -> in_gens n (te_gens G1 G2) x.
+Proof. exact time_elapse_contains. Qed.
+Theorem C02_time_elapse_least : forall n G1 G2 (t : sys),
+  wf_gens G1 -> wf_gens G2 -> wf_sys_dim n t ->
+  (forall g, In g G1 -> (length (gcoefs g) <= n)%nat) -> (forall g, In g G2 -> (length (gcoefs g) <= n)%nat) ->
+  (exists p, in_gens n G1 p) -> (exists q, in_gens n G2 q) ->
+  (forall x, time_elapse_set n G1 G2 x -> sat_sys t x) ->
+  forall x, in_gens n (te_gens G1 G2) x -> sat_sys t x.
+Proof. exact time_elapse_least. Qed.
+
 (* poly_hull_assign_if_exact: with h the hull, the Boolean is true exactly when the union is already convex *)
 Theorem C02_hull_if_exact_flag : forall n h p q b,
   covered_by_union n h p q = Some b -> (b = true <-> forall x, sat_sys h x -> sat_sys p x \/ sat_sys q x).
